@@ -41,6 +41,8 @@ class EngineError(BaseException):
 
 
 class Ctx:
+    fresh = False  # float-heavy harnesses: every query is decided by a fresh (non-incremental, tactic-based) solver
+
     def __init__(self, prefix, stats):
         self.solver = z3.Solver()
         self.solver.set("rlimit", RLIMIT)
@@ -55,10 +57,17 @@ class Ctx:
     def _check(self, *extra):
         self.stats["queries"] += 1
         t0 = time.time()
-        self.solver.push()
-        self.solver.add(*extra)
-        r = self.solver.check()
-        self.solver.pop()
+        if self.fresh:
+            s2 = z3.Solver()
+            s2.set("rlimit", RLIMIT)
+            s2.add(self.solver.assertions())
+            s2.add(*extra)
+            r = s2.check()
+        else:
+            self.solver.push()
+            self.solver.add(*extra)
+            r = self.solver.check()
+            self.solver.pop()
         self.stats["solver_s"] += time.time() - t0
         k = str(r)
         self.stats[k] = self.stats.get(k, 0) + 1
@@ -925,7 +934,7 @@ def _cvc5_check(smt2, tlimit_ms=3000):
         return "unknown"
 
 
-def explore(fn, max_paths=200000, wall_cap=None, want_witness=True, crosscheck=0):
+def explore(fn, max_paths=200000, wall_cap=None, want_witness=True, crosscheck=0, fresh_final=False):
     """fn(V) runs real code on proxies and returns the postcondition (see normalise_post) or None (path not
     subject to the claim).  Returns a dict: result in {holds, cex, inconclusive}; paths; reached; stats."""
     global CTX
@@ -940,6 +949,7 @@ def explore(fn, max_paths=200000, wall_cap=None, want_witness=True, crosscheck=0
         while work:
             prefix = work.pop()
             ctx = Ctx(prefix, stats)
+            ctx.fresh = bool(fresh_final)
             CTX = ctx
             V = SymV()
             try:
@@ -956,6 +966,7 @@ def explore(fn, max_paths=200000, wall_cap=None, want_witness=True, crosscheck=0
             paths += 1
             work.extend(ctx.worklist)
             claims = normalise_post(post)
+            fresh_model = None
             if claims is not None:
                 reached += 1
                 for n, _ in claims:
@@ -965,7 +976,17 @@ def explore(fn, max_paths=200000, wall_cap=None, want_witness=True, crosscheck=0
                 tq = time.time()
                 s.push()
                 s.add(z3.Not(z3.And(*[c for _, c in claims])) if claims else z3.BoolVal(False))
-                r = str(s.check())
+                r = str(s.check()) if not fresh_final else "unknown"
+                if r == "unknown":
+                    # the incremental core has no preprocessing (no bit-blasting tactics for FP/BV): decide the same assertions once more with a
+                    # fresh, non-incremental solver, which picks the theory tactic (what a one-shot z3 run on the query would do)
+                    s2 = z3.Solver()
+                    s2.set("rlimit", RLIMIT * 4)
+                    s2.add(s.assertions())
+                    r = str(s2.check())
+                    stats["fresh_solver_queries"] = stats.get("fresh_solver_queries", 0) + 1
+                    if r == "sat":
+                        fresh_model = s2.model()
                 stats["solver_s"] += time.time() - tq
                 stats[r] = stats.get(r, 0) + 1
                 if crosscheck > 0 and r in ("sat", "unsat"):
@@ -979,7 +1000,7 @@ def explore(fn, max_paths=200000, wall_cap=None, want_witness=True, crosscheck=0
                         return dict(result="error", why="z3 answered %s, cvc5 answered %s on the final query of path %d" % (r, r2, paths), paths=paths,
                                     reached=reached, stats=stats, wall_s=time.time() - t0)
                 if r == "sat":
-                    m = s.model()
+                    m = fresh_model if fresh_model is not None else s.model()
                     failed = [n for n, c in claims if z3.is_false(m.eval(c, model_completion=True))]
                     vals = model_values(m)
                     s.pop()
